@@ -2,6 +2,7 @@ package checks
 
 import (
 	"bytes"
+	"strings"
 	"encoding/json"
 	"fmt"
 	"io"
@@ -153,7 +154,7 @@ func scriptString(sc env.Script) string {
 func c28Run(c *fx.Ctx) {
 	docs := ioCorpus(0)
 	entries := readEntries()
-	maxDev2 := c.Pick(1500, 20000) // cap on 2-deviation scripts per (entry, doc)
+	maxDev2 := c.Pick(250, 20000) // cap on 2-deviation scripts per (entry, doc)
 	for _, d := range docs {
 		var inputs [][]byte
 		for _, b := range [][]byte{d.cbe, d.cte} {
@@ -197,6 +198,10 @@ func c28Run(c *fx.Ctx) {
 				}
 				// 2 deviations: all pairs (capped; the cap is reported)
 				count := 0
+				maxDev2 := maxDev2
+				if strings.HasPrefix(e.name, "ce.Unmarshal") {
+					maxDev2 = c.Pick(40, 3000) // the one-shot helpers cost ~200µs per call (they copy the root session)
+				}
 			outer:
 				for i := 0; i < n+2; i++ {
 					for _, k1 := range kinds {
